@@ -15,6 +15,7 @@ pub struct Outcome {
     pub vt_checks: u64,
     pub vt_mismatch: u64,
     pub vt_sample: Option<String>,
+    pub vt_crashed: bool,
     pub wraps: u64,
     pub clamped_up: u64,
     pub op_obs: Vec<crate::world::OpObs>,
@@ -55,14 +56,24 @@ pub fn run_world(cfg: &WorldCfg, ops: &[Op], check_cursor: bool) -> Outcome {
         vt_checks: st.vt_checks,
         vt_mismatch: st.vt_mismatch,
         vt_sample: st.vt_mismatch_sample.clone(),
+        vt_crashed: st.vt_crashed,
         wraps: st.screen.wraps,
         clamped_up: st.screen.clamped_up,
         op_obs: w.op_obs.clone(),
         getter_fail,
     };
     drop(st);
-    // dropping the world drops remaining handles (may draw); not checked
-    let _ = std::panic::catch_unwind(std::panic::AssertUnwindSafe(move || drop(w)));
+    // dropping the world drops remaining handles (may draw); not checked. One at a time, so that a
+    // panicking drop (poisoned lock after an earlier panic) cannot turn into a double panic.
+    let World { bars, mp, .. } = w;
+    for b in bars.into_iter().flatten() {
+        for h in b.handles {
+            if std::panic::catch_unwind(std::panic::AssertUnwindSafe(move || drop(h))).is_err() {
+                break;
+            }
+        }
+    }
+    let _ = std::panic::catch_unwind(std::panic::AssertUnwindSafe(move || drop(mp)));
     indicatif::verif_hooks::install(None);
     out
 }
@@ -346,6 +357,10 @@ pub fn run_case(prop: &ScreenProp, seed: u64, idx: u64, keep: Option<&[usize]>) 
     co.count("cursor_up_clamped", out.clamped_up);
     co.count("vt100_cross_checks", out.vt_checks);
     co.count("vt100_disagreements", out.vt_mismatch);
+    co.count("vt100_crashed_cross_check_disabled", out.vt_crashed as u64);
+    co.count("finishing_ops_checked", out.op_obs.iter().filter(|o| o.finishing).count() as u64);
+    co.count("finishing_ops_that_must_paint", out.op_obs.iter().filter(|o| o.finishing && o.expect_flush).count() as u64);
+    co.count("drops_of_finished_bars_checked", out.op_obs.iter().filter(|o| o.drop_finished).count() as u64);
     co.max("rows_requested", out.stats.max_rows_requested);
     co.see("terminal_sizes", ((cfg.width as u64) << 16) | cfg.height as u64);
     co.see("lanes", lane as u64);
